@@ -107,7 +107,7 @@ package k8s
 //@ iface k8s.io/client-go/kubernetes/typed/core/v1.NodeInterface.Get(c, ctx, name, opts) (n, err)
 //@   modifies getSeen, nGet, nKFail
 //@   ensures getSeen == old(getSeen)[name := true]
-//@   ensures [C05,C07] nGet == old(nGet) + 1 && nKFail == old(nKFail) + (err != nil ? 1 : 0) && (n == nil ==> err != nil)
+//@   ensures [C03,C05,C06,C07] nGet == old(nGet) + 1 && nKFail == old(nKFail) + (err != nil ? 1 : 0) && (n == nil ==> err != nil)
 //@   ensures n == nil || fresh(n)
 //@   ensures n != nil ==> base(n.Spec.Taints) == nil || fresh(base(n.Spec.Taints))
 //@   ensures err == nil && n != nil ==> n.Name == name
@@ -121,7 +121,7 @@ package k8s
 //@ iface k8s.io/client-go/kubernetes/typed/core/v1.NodeInterface.Update(c, ctx, node, opts) (r, err)
 //@   requires node != nil
 //@   modifies Jlen, Jkind, Jname, Jnode, Jok, Jesc, nTaintOK, nUntaintOK, nKFail
-//@   ensures [C05,C07] nKFail == old(nKFail) + (err != nil ? 1 : 0)
+//@   ensures [C03,C05,C06,C07] nKFail == old(nKFail) + (err != nil ? 1 : 0)
 //@   ensures [C03,C06,C07] nTaintOK == old(nTaintOK) || nTaintOK == old(nTaintOK) + 1
 //@   ensures [C03,C06,C07] nTaintOK == old(nTaintOK) + 1 <==> (err == nil && hasEsc(node) && !gotHasEsc(node))
 //@   ensures [C03,C06,C07] nUntaintOK == old(nUntaintOK) || nUntaintOK == old(nUntaintOK) + 1
@@ -186,6 +186,8 @@ package k8s
 //@   ensures [C03,C06,C07] nUntaintOK == old(nUntaintOK) && old(nTaintOK) <= nTaintOK && nTaintOK <= old(nTaintOK) + 1
 //@   ensures [C03,C06,C07] nTaintOK == old(nTaintOK) + 1 ==> err == nil && Jlen == old(Jlen) + 1
 //@   ensures [C03,C06,C07] err != nil ==> nTaintOK == old(nTaintOK)
+// C03/C06 accounting: one fetch per call, and the call fails exactly when one of its API calls failed
+//@   ensures [C03,C06] nGet == old(nGet) + 1 && nKFail == old(nKFail) + (err != nil ? 1 : 0)
 //@   onlywrites [C15] "^H:(v1|metav1)\\." : "^H:v1\\.NodeSpec\\.Taints\\.|^H:v1\\.Taint\\."
 //@   ensures clock >= old(clock)
 //@   ensures old(Jlen) <= Jlen && Jlen <= old(Jlen) + 1
@@ -212,7 +214,7 @@ package k8s
 //@   ensures [C03,C06,C07] nUntaintOK == old(nUntaintOK) + 1 ==> err == nil && Jlen == old(Jlen) + 1
 //@   ensures [C03,C06,C07] err != nil ==> nUntaintOK == old(nUntaintOK)
 // C05/C07 accounting: one fetch per call, and the call fails exactly when one of its API calls failed
-//@   ensures [C05,C07] nGet == old(nGet) + 1 && nKFail == old(nKFail) + (err != nil ? 1 : 0)
+//@   ensures [C03,C05,C07] nGet == old(nGet) + 1 && nKFail == old(nKFail) + (err != nil ? 1 : 0)
 //@   onlywrites [C15] "^H:(v1|metav1)\\." : "^H:v1\\.NodeSpec\\.Taints\\.|^H:v1\\.Taint\\."
 //@   ensures old(Jlen) <= Jlen && Jlen <= old(Jlen) + 1
 //@   ensures forall k :: k < old(Jlen) ==> Jkind[k] == old(Jkind)[k] && Jname[k] == old(Jname)[k] && Jok[k] == old(Jok)[k] && Jnode[k] == old(Jnode)[k] && Jesc[k] == old(Jesc)[k]
